@@ -182,6 +182,14 @@ func TestRAC_C04(t *testing.T) {
 			map[string]interface{}{"Name": "m", "Count": 9, "F64": 0.25, "IS": []int{1}, "M": map[string]interface{}{"a": 1}, "B": false, "T": when}, nil},
 		{"map with a key that is spelled with and without the legacy $ prefix", map[string]interface{}{"$Name": "prefixed", "Name": "plain", "Count": 1},
 			map[string]interface{}{"Name": "plain", "Count": 1}, nil},
+		{"map of strings", map[string]string{"Name": "ms", "S": "t"}, map[string]interface{}{"Name": "ms", "S": "t"}, nil},
+		{"map of integers", map[string]int{"Count": 4, "Int": -9}, map[string]interface{}{"Count": 4, "Int": -9}, nil},
+		{"map of slices", map[string][]int{"IS": {4, 5}}, map[string]interface{}{"IS": []int{4, 5}}, nil},
+		{"map holding a map of strings", map[string]interface{}{"Name": "mm", "M": map[string]string{"k": "v"}}, map[string]interface{}{"Name": "mm", "M": map[string]interface{}{"k": "v"}}, nil},
+		{"struct with a map of integers", struct {
+			Name string
+			M    map[string]int
+		}{"sm", map[string]int{"k": 7}}, map[string]interface{}{"Name": "sm", "M": map[string]interface{}{"k": 7}}, nil},
 		{"base struct", base, map[string]interface{}{"Name": "base-name", "Count": 77, "Extra": 2.5}, nil},
 		{"nil object", nil, map[string]interface{}{}, nil},
 		{"record type A again", c04RecA(), map[string]interface{}{"Failures": 3, "Limit": 5, "Host": "a"}, nil},
